@@ -112,6 +112,8 @@ class ControlFlowTransformer(converter.Base):
       return ast.Dict(keys=[], values=[])
 
     opts_dict = loop_directives[directives.set_loop_options]
+    if not opts_dict:
+      return ast.Dict(keys=[], values=[])
     str_keys, values = zip(*opts_dict.items())
     keys = [ast.Constant(s) for s in str_keys]
     values = list(values)
